@@ -124,6 +124,7 @@ func H_C15_map_async_list() {
 		return r
 	})
 	verifAssert(got.Count() == n, "MapAsync yields one result per element")
+	verifAssert(got != List(l), "MapAsync returns a new list, as Map does (also for the empty list)")
 	for i := 0; i < n && i < got.Count(); i++ {
 		verifAssert(got.TypeOf(i) == TypeInt && got.GetInt(i) == want.GetInt(i), "MapAsync returns exactly what Map returns for the same pure function")
 	}
@@ -152,6 +153,7 @@ func H_C15_map_async_object() {
 		return r
 	})
 	verifAssert(got.Count() == n, "MapAsync yields one result per field")
+	verifAssert(got != Object(o), "MapAsync returns a new object, as Map does (also for the empty object)")
 	for i := 0; i < n; i++ {
 		verifAssert(got.KeyExists(keys[i]) && got.TypeOf(keys[i]) == TypeInt && got.GetInt(keys[i]) == want.GetInt(keys[i]), "MapAsync returns exactly what Map returns for the same pure function")
 	}
